@@ -6,7 +6,14 @@
 (* entered, wresolved(e) after they called resolve, wend(e) immediately    *)
 (* before they return.  The value an execution resolves with is its own    *)
 (* identity e, so the outcome a call receives names the execution that     *)
-(* answered it.                                                            *)
+(* answered it (an execution that fails resolves with the error "E<e>").   *)
+(* Calls go through every entry point (CallWithOptions with Work and       *)
+(* wrappers, Call, CallAfter, CallAsync, CallAfterAsync, Start,            *)
+(* StartAfter).  For CallWithOptions the wstart / wend events are logged   *)
+(* by an OUTER wrapper (given after the rate limit, so the interval        *)
+(* includes what ExclusiveRateLimit adds and wend carries the measured     *)
+(* duration), wlayer by an INNER wrapper (given first), wresolved by the   *)
+(* work function.                                                          *)
 (***************************************************************************)
 EXTENDS Integers, Sequences, FiniteSets, TLC, Json, IOUtils, TLCExt
 
@@ -21,13 +28,14 @@ VARIABLES l, pend,
   execs,      \* [e -> [key, fn, line, resolved, ended, mode]]
   ncalls,     \* number of calls made so far
   fnsOf,      \* [key -> set of fn ids supplied by calls made so far]
-  starts      \* set of [key, line] for start-style calls not yet followed by an execution
-vars == <<running, execs, ncalls, fnsOf, starts>>
+  starts,     \* set of [key, line] for start-style calls not yet followed by an execution
+  rlc         \* the context of the rate limits has been (or is being) cancelled
+vars == <<running, execs, ncalls, fnsOf, starts, rlc>>
 tvars == <<vars, l, pend>>
 Idle == [st |-> "idle", line |-> 0]
 
 TVInit == /\ l = 1 /\ pend = [g \in GS |-> Idle]
-          /\ running = <<>> /\ execs = <<>> /\ ncalls = 0 /\ fnsOf = <<>> /\ starts = {}
+          /\ running = <<>> /\ execs = <<>> /\ ncalls = 0 /\ fnsOf = <<>> /\ starts = {} /\ rlc = FALSE
           /\ TLCSet(1, 0)
 
 Cur == TLog[l]
@@ -38,7 +46,7 @@ Put(f, k, v) == [x \in DOMAIN f \cup {k} |-> IF x = k THEN v ELSE f[x]]
 
 TReset ==
   /\ IsEv("reset") /\ Consume
-  /\ pend' = [g \in GS |-> Idle] /\ running' = <<>> /\ execs' = <<>> /\ ncalls' = 0 /\ fnsOf' = <<>> /\ starts' = {}
+  /\ pend' = [g \in GS |-> Idle] /\ running' = <<>> /\ execs' = <<>> /\ ncalls' = 0 /\ fnsOf' = <<>> /\ starts' = {} /\ rlc' = FALSE
 
 TCall ==
   /\ IsEv("call") /\ Consume /\ pend[Cur.g].st = "idle"
@@ -49,7 +57,7 @@ TCall ==
             /\ pend' = [pend EXCEPT ![Cur.g] = [st |-> "start", line |-> l]]
        ELSE /\ starts' = starts
             /\ pend' = [pend EXCEPT ![Cur.g] = [st |-> "called", line |-> l]]
-  /\ UNCHANGED <<running, execs>>
+  /\ UNCHANGED <<running, execs, rlc>>
 
 \* C09: an execution starts only when no other execution of its key is between wstart and wend
 \* C10: executions never outnumber calls; the function was supplied by a call of this key
@@ -59,22 +67,37 @@ TWStart ==
   /\ Cardinality(DOMAIN execs) + 1 <= ncalls
   /\ Cur.fn \in Get(fnsOf, Cur.key, {})
   /\ running' = Put(running, Cur.key, Cur.e)
-  /\ execs' = Put(execs, Cur.e, [key |-> Cur.key, fn |-> Cur.fn, line |-> l, resolved |-> FALSE, ended |-> FALSE, mode |-> Cur.mode])
+  /\ execs' = Put(execs, Cur.e, [key |-> Cur.key, fn |-> Cur.fn, line |-> l, resolved |-> FALSE, ended |-> FALSE, mode |-> Cur.mode,
+                                  rate |-> Cur.rate_us, fail |-> Cur.fail, inner |-> Cur.mode = "value"])
   /\ starts' = {s \in starts : s.key # Cur.key}       \* every earlier Start of this key is now followed by an execution
-  /\ UNCHANGED <<pend, ncalls, fnsOf>>
+  /\ UNCHANGED <<pend, ncalls, fnsOf, rlc>>
+
+\* the inner wrapper runs inside the outer one (wrappers: left -> right is inner -> outer), once, before the work resolves
+TWLayer ==
+  /\ IsEv("wlayer") /\ Consume
+  /\ Cur.e \in DOMAIN execs /\ ~execs[Cur.e].inner /\ ~execs[Cur.e].resolved /\ ~execs[Cur.e].ended
+  /\ execs' = [execs EXCEPT ![Cur.e].inner = TRUE]
+  /\ UNCHANGED <<pend, running, ncalls, fnsOf, starts, rlc>>
+
+TRlCancel == IsEv("rlcancel") /\ Consume /\ rlc' = TRUE /\ UNCHANGED <<pend, running, execs, ncalls, fnsOf, starts>>
 
 TWResolved ==
   /\ IsEv("wresolved") /\ Consume
-  /\ Cur.e \in DOMAIN execs
+  /\ Cur.e \in DOMAIN execs /\ execs[Cur.e].inner /\ ~execs[Cur.e].resolved
   /\ execs' = [execs EXCEPT ![Cur.e].resolved = TRUE]
-  /\ UNCHANGED <<pend, running, ncalls, fnsOf, starts>>
+  /\ UNCHANGED <<pend, running, ncalls, fnsOf, starts, rlc>>
 
 TWEnd ==
   /\ IsEv("wend") /\ Consume
   /\ Cur.e \in DOMAIN execs
+  \* a rate-limited execution holds its key for at least the minimum duration, unless the rate limit's context was cancelled
+  \* (the rlcancel line is logged before the cancellation happens: not logged yet means not cancelled yet); a rate limit
+  \* whose context is already cancelled does not run the work at all
+  /\ (execs[Cur.e].rate > 0 /\ ~rlc) => (Cur.dur_ns >= execs[Cur.e].rate * 1000 /\ execs[Cur.e].inner)
+  /\ (execs[Cur.e].rate = 0) => execs[Cur.e].inner
   /\ execs' = [execs EXCEPT ![Cur.e].ended = TRUE]
   /\ running' = IF Get(running, execs[Cur.e].key, 0) = Cur.e THEN Put(running, execs[Cur.e].key, 0) ELSE running
-  /\ UNCHANGED <<pend, ncalls, fnsOf, starts>>
+  /\ UNCHANGED <<pend, ncalls, fnsOf, starts, rlc>>
 
 \* C10: the outcome is the outcome of an execution of the same key that began after the call was made
 Answers(e, g) ==
@@ -88,9 +111,14 @@ TRet ==
      /\ TLog[pend[g].line].ret = l
      /\ \/ pend[g].st = "start" /\ Cur.r = "nil"                 \* start-style calls return no outcome channel
         \/ /\ pend[g].st = "called" /\ Cur.r = "ok"
-           /\ Answers(Cur.e, g) /\ execs[Cur.e].resolved /\ execs[Cur.e].mode # "never"
+           /\ Answers(Cur.e, g) /\ execs[Cur.e].resolved /\ execs[Cur.e].mode # "never" /\ ~execs[Cur.e].fail
+        \/ /\ pend[g].st = "called" /\ Cur.r = "err"             \* the error of the answering execution, and no result
+           /\ Answers(Cur.e, g) /\ execs[Cur.e].resolved /\ execs[Cur.e].mode # "never" /\ execs[Cur.e].fail
         \/ /\ pend[g].st = "called" /\ Cur.r = "notresolved"     \* the work function returned without resolving
-           /\ \E e \in DOMAIN execs : Answers(e, g) /\ execs[e].mode = "never" /\ execs[e].ended
+           /\ \E e \in DOMAIN execs : Answers(e, g) /\ execs[e].mode = "never" /\ execs[e].ended /\ execs[e].inner
+        \/ /\ pend[g].st = "called" /\ Cur.r = "rlcancelled"     \* a rate limit whose context is cancelled answers with its error
+           /\ rlc /\ \E e \in DOMAIN execs : Answers(e, g) /\ execs[e].rate > 0 /\ ~execs[e].inner
+     /\ Cur.closed                                              \* outcome channels are closed after the outcome
      /\ pend' = [pend EXCEPT ![g] = Idle]
   /\ UNCHANGED vars
 
@@ -117,7 +145,7 @@ TFinal ==
   /\ \A k \in DOMAIN running : running[k] = 0
   /\ UNCHANGED <<vars, pend>>
 
-TVNext == TReset \/ TRelease \/ TCall \/ TRet \/ TWStart \/ TWResolved \/ TWEnd \/ TQuiescent \/ TFinal
+TVNext == TReset \/ TRelease \/ TCall \/ TRet \/ TWStart \/ TWLayer \/ TRlCancel \/ TWResolved \/ TWEnd \/ TQuiescent \/ TFinal
 TVSpec == TVInit /\ [][TVNext]_tvars
 Mark ==
   /\ IF l - 1 > TLCGet(1) THEN TLCSet(1, l - 1) ELSE TRUE
